@@ -5,14 +5,14 @@ package probdist
 
 //@ pred wdInv(w) := w != nil && 1 <= len(w.values) && len(w.values) <= 100 && len(w.prob) == len(w.values) && len(w.alias) == len(w.values)
 //@     && w.minValue < w.maxValue && w.maxValue - w.minValue < 4611686018427387904 && -4611686018427387904 < w.minValue && w.minValue < 4611686018427387904
-//@     && forall(j, 0, len(w.values), 0 <= w.values[j] && w.values[j] <= w.maxValue - w.minValue)
-//@     && forall(j, 0, len(w.alias), 0 <= w.alias[j] && w.alias[j] < len(w.values))
+//@     && forall(j, offset(w.values), offset(w.values) + len(w.values), 0 <= aget(arr(w.values), j) && aget(arr(w.values), j) <= w.maxValue - w.minValue)
+//@     && forall(j, offset(w.alias), offset(w.alias) + len(w.alias), 0 <= aget(arr(w.alias), j) && aget(arr(w.alias), j) < len(w.values))
 
 //@ func (*WeightedDist).Sample(w) (ret)
 //@   serves C12 C09
 //@   requires wdInv(w)
 //@   ensures [C12:sample_in_range] w.minValue <= ret && ret <= w.maxValue
-//@   ensures [C12:sample_in_table] exists(k, 0, len(w.values), ret == w.minValue + w.values[k])
+//@   ensures [C12:sample_in_table] exists(j, offset(w.values), offset(w.values) + len(w.values), ret == w.minValue + aget(arr(w.values), j))
 
 //@ func (*WeightedDist).Reset(w, seed) ()
 //@   serves C12 C09
